@@ -55,6 +55,8 @@ OPTION_SETS = [
     ['-ff', 'martini3001', '-cys', 'none', '-resid', 'input'],
     ['-ff', 'martini22', '-noscfix', '-merge', 'all'],
     ['-ff', 'martini3001', '-noscfix', '-ss', 'C'],
+    ['-ff', 'martini3001', '-go'],
+    ['-ff', 'martini3001', '-go', '-go-eps', '12', '-elastic'],
 ]
 PRESENTATIONS = [('permute', {'pstyle': 'random'}), ('permute', {'pstyle': 'reverse'}), ('rename-h', {'hstyle': 'pdb-rotation'}),
                  ('rename-h', {'hstyle': 'arbitrary'}), ('rigid', {}), ('hashseed', {})]
@@ -81,6 +83,11 @@ def load_outputs(workdir):
         if n not in out['itps']:
             with open(os.path.join(workdir, n + '.itp')) as f:
                 out['itps'][n] = itpread.parse(f.read())['moleculetypes'][0]
+    out['extra'] = {}
+    for inc, _ in out['top']['includes']:
+        if inc and inc != 'martini.itp' and inc[:-4] not in out['itps'] and os.path.exists(os.path.join(workdir, inc)):
+            with open(os.path.join(workdir, inc)) as f:
+                out['extra'][inc] = itpread.parse(f.read())['other']
     with open(os.path.join(workdir, 'out.pdb')) as f:
         out['pdb'] = pdbread.read_pdb_text(f.read())
     with open(os.path.join(workdir, 'presentation.json')) as f:
@@ -121,6 +128,27 @@ def compare(ref, other, exact, upper=None):
         return ('top/molecules', {'reference': ref['top']['molecules'], 'other': other['top']['molecules']}), 0
     if sorted(ref['top']['includes']) != sorted(other['top']['includes']) or ref['top']['defines'] != other['top']['defines']:
         return ('top/includes-or-defines', {'reference': ref['top']['includes'], 'other': other['top']['includes']}), 0
+    if sorted(ref.get('extra', {})) != sorted(other.get('extra', {})):
+        return ('top/extra-include-files', {'reference': sorted(ref.get('extra', {})), 'other': sorted(other.get('extra', {}))}), 0
+    for inc, secs in ref.get('extra', {}).items():
+        for sname in set(secs) | set(other['extra'][inc]):
+            a = [list(t) for t, g in secs.get(sname, [])]
+            c = [list(t) for t, g in other['extra'][inc].get(sname, [])]
+            if exact:
+                if a != c:
+                    return ('hashseed/extra-file-differs', {'file': inc, 'section': sname, 'n_reference': len(a), 'n_other': len(c)}), 0
+                continue
+            rest = list(c)
+            unmatched = []
+            for row in a:
+                hit = next((j for j, row2 in enumerate(rest) if tokens_equal(row, row2, False)), None)
+                if hit is None:
+                    unmatched.append(row)
+                else:
+                    del rest[hit]
+            if unmatched or rest:
+                return ('itp/extra-file-rows', {'file': inc, 'section': sname, 'only_in_one_run': (unmatched + rest)[:5],
+                                                'n_reference': len(a), 'n_other': len(c)}), 0
     for n, r in ref['itps'].items():
         o = other['itps'].get(n)
         if o is None:
@@ -206,6 +234,10 @@ def cases(tier, seed):
         pres = rnd.sample(PRESENTATIONS, npres) if npres < len(PRESENTATIONS) else list(PRESENTATIONS)
         if not any(p[0] == 'hashseed' for p in pres):
             pres[-1] = ('hashseed', {})
+        if '-go' in options:
+            # the Go contact map places a fixed-frame point set on every atom: it is translation- but not rotation-invariant by
+            # construction, and the statement's option list does not include it; only translations are presented there
+            pres = [('rigid', {'translate_only': True}) if p[0] == 'rigid' else p for p in pres]
         out.append({'pdb': pdb, 'options': options, 'presentations': pres, 'pseed': rnd.randrange(10 ** 6),
                     'hashseed': rnd.choice([1, 2, 3, 12345])})
     return out
